@@ -267,6 +267,8 @@ ODD_CONFS = [
     ["acl g0 src ipv6", "http_access allow g0", "http_access deny all"],
     ["acl g0 src 0.0.0.0/0", "http_access allow g0", "http_access deny all"],
     ["acl g0 dst -- 127.45.0.1", "http_access allow g0", "http_access deny all"],
+    ["acl g0 dst -n 127.45.0.1", "acl g0 dst 127.45.4.4", "http_access allow g0", "http_access deny all"],      # -n persists over later lines
+    ["acl g0 dstdomain ptr.example.org", "acl g0 dstdomain -n none", "http_access allow g0", "http_access deny all"],
     ["acl g0 url_regex foo", "http_access allow g0"],
     ["http_access allow manager", "http_access deny all"],
     ["acl g0 src 127.45.10.1", "cache deny g0", "http_access allow g0"],
